@@ -947,6 +947,13 @@ func (m *Memberlist) sendUserMsg(a Address, sendBuf []byte) error {
 		_ = conn.Close()
 	}()
 
+	// Like every other stream exchange, do not wait for the peer forever: a
+	// peer that accepted the connection and stopped reading would otherwise
+	// block the caller (and the goroutine past Shutdown) for good.
+	if err := conn.SetDeadline(time.Now().Add(m.config.TCPTimeout)); err != nil {
+		return err
+	}
+
 	bufConn := bytes.NewBuffer(nil)
 	if err := bufConn.WriteByte(byte(userMsg)); err != nil {
 		return err
